@@ -65,6 +65,8 @@ Add(i, newlist) == /\ InCtx /\ alive[i] /\ Ev.r = Len(cbOf) + 1
                    /\ AfterAdd(i) /\ LvOk(lists', alive, pins) /\ UNCHANGED <<alive, pins>>
 
 EvSetCtr == Is("k") /\ frames = <<>> /\ until' = [until EXCEPT ![Ev.o] = Ev.a] /\ UNCHANGED <<lists, alive, cbOf, frames, pins>>
+\* the counter was advanced as if by additions that were removed again: nothing changes but the distance to the wrap
+EvJump == Is("j") /\ alive[Ev.o] /\ Ev.a <= until[Ev.o] /\ until' = [until EXCEPT ![Ev.o] = Ev.a] /\ UNCHANGED <<lists, alive, cbOf, frames, pins>>
 EvAppend == Is("a") /\ Add(Ev.o, Append(lists[Ev.o], Len(cbOf) + 1))
 EvPrepend == Is("p") /\ Add(Ev.o, <<Len(cbOf) + 1>> \o lists[Ev.o])
 EvInsert == Is("i") /\ Usable(Ev.o, Ev.a)
@@ -173,7 +175,7 @@ EvReset == /\ Is("rs") /\ frames = <<>> /\ \A i \in Lists : ~alive[i] /\ Ev.lv =
            /\ until' = [i \in Lists |-> Big] /\ frames' = <<>> /\ pins' = 0
 
 Next == \/ EvHasListener \/ EvHasAny \/ EvRemoveListener
-        \/ EvSetCtr \/ EvAppend \/ EvPrepend \/ EvInsert \/ EvRemove \/ EvOwns \/ EvEmpty
+        \/ EvSetCtr \/ EvJump \/ EvAppend \/ EvPrepend \/ EvInsert \/ EvRemove \/ EvOwns \/ EvEmpty
         \/ EvInvokeBegin \/ EvEnter \/ EvRet \/ EvInvokeEnd \/ EvForEachBegin \/ EvVisit \/ EvForEachEnd
         \/ EvCopyConstruct \/ EvCopyAssign \/ EvMoveConstruct \/ EvMoveAssign \/ EvSwap \/ EvDestroy \/ EvReset
 
